@@ -23,11 +23,13 @@ OUT = os.environ.get("VERIF_OUT", VERIF)
 _OPTS = None
 
 
-def _init_worker(tier, seed):
+def _init_worker(tier, seed, optkw=None):
     global _OPTS
     common.load_repo()
     from .symnum import engine as E
     _OPTS = E.Options(tier, seed)
+    for k, v in (optkw or {}).items():
+        setattr(_OPTS, k, v)
 
 
 class _Timeout(Exception):
@@ -167,15 +169,15 @@ def _work_inner(item):
     return res
 
 
-def run_pool(modname, specs, tier, seed, limit=None, procs=None):
+def run_pool(modname, specs, tier, seed, limit=None, procs=None, optkw=None):
     limit = limit or (120 if tier == "quick" else 900)
     procs = procs or int(os.environ.get("VERIF_PROCS", "16"))
     items = [(modname, s, limit) for s in specs]
     if procs <= 1 or len(items) <= 1:
-        _init_worker(tier, seed)
+        _init_worker(tier, seed, optkw)
         return [_work(i) for i in items]
     ctx = mp.get_context("fork")
-    with ctx.Pool(min(procs, len(items)), initializer=_init_worker, initargs=(tier, seed)) as pool:
+    with ctx.Pool(min(procs, len(items)), initializer=_init_worker, initargs=(tier, seed, optkw)) as pool:
         out = list(pool.imap_unordered(_work, items, chunksize=max(1, min(8, len(items) // (procs * 4) or 1))))
     out.sort(key=lambda r: r["sig"])
     return out
@@ -264,6 +266,7 @@ def finish(prop, tier, seed, results, t0, *, level="model_checking", bounds=None
         "paths_explored": states,
         "path_coverage_proved_complete": sum(1 for r in results if r.get("complete")),
         "symbolic_runs": sum(r.get("runs", 0) for r in results),
+        "tie_paths_examined": sum(r.get("tie_paths", 0) for r in results),
         "obligations": sum(r.get("obligations", 0) for r in results),
         "discharged": sum(r.get("discharged", 0) for r in results),
         "goal_pairs": sum(r.get("goals", 0) for r in results),
